@@ -288,7 +288,9 @@ class C08(Property):
         n = rng.choice([12, 20, 30, 40, 60, 100, 1000])
         circular = rng.random() < 0.55
         anchors = [rng.randrange(0, n + 1) for _ in range(rng.choice([2, 3, 4]))] + [0, n]
-        products = ["pa", "pb"]
+        # product names of which one contains another (as antiSMASH's real rule names do), next to unrelated ones
+        products = rng.choice([["NRPS", "NRPS-like"], ["terpene", "terpene-precursor"], ["T1PKS", "PKS", "transAT-PKS"],
+                               ["a", "ab", "b"], ["pa", "pb"], ["RiPP-like", "RiPP"]])
         protos = []
         for i in range(rng.choice([0, 1, 1, 2, 2, 3])):
             loc = self.rand_area_loc(rng, n, circular, anchors)
@@ -315,7 +317,7 @@ class C08(Property):
             if loc_key(loc) in seen:
                 continue
             seen.add(loc_key(loc))
-            cores = [p for p in products if rng.random() < 0.45]
+            cores = [p for p in products if rng.random() < 0.4]
             genes.append({"id": len(genes), "loc": loc, "cores": cores})
         genes = genes[:rng.choice([2, 3, 4, 5, 6, 8])]
         with_regions = rng.random() < 0.8
